@@ -1488,10 +1488,13 @@ func (c *control) dirCond(colon, at bool, params []any) {
 		}
 	default:
 		if !hasParam {
-			if no, ok := arg.(slip.Fixnum); ok {
+			switch no := arg.(type) {
+			case slip.Fixnum:
 				n = int(no)
-			} else {
-				slip.TypePanic(c.scope, 0, "conditional directive argument", arg, "fixnum")
+			case *slip.Bignum:
+				n = -1 // an integer but out of range of any clause
+			default:
+				slip.TypePanic(c.scope, 0, "conditional directive argument", arg, "integer")
 			}
 		}
 		if 0 <= n && n < len(strs) {
